@@ -47,6 +47,12 @@ class Inode:
         self.data = bytearray()
 
 
+class Snapshot(dict):
+    """path -> bytes, plus the groups of names that share an inode (hard links)."""
+
+    links = ()
+
+
 class SimFile:
     """File object handed to the code under test."""
 
@@ -224,7 +230,12 @@ class SimFS:
 
     # ---- durable-state helpers (used by oracles, never by the code under test)
     def snapshot(self):
-        return {p: bytes(i.data) for p, i in self.files.items()}
+        snap = Snapshot((p, bytes(i.data)) for p, i in self.files.items())
+        groups = {}
+        for p, i in self.files.items():
+            groups.setdefault(id(i), []).append(p)
+        snap.links = [sorted(g) for g in groups.values() if len(g) > 1]
+        return snap
 
     def restore(self, snap):
         self.files = {}
@@ -232,6 +243,9 @@ class SimFS:
             ino = Inode()
             ino.data = bytearray(b)
             self.files[p] = ino
+        for group in getattr(snap, "links", []):  # names that are hard links to one inode
+            for p in group[1:]:
+                self.files[p] = self.files[group[0]]
         self._open_files = set()
         self.dead = False
         self.full = False
@@ -476,6 +490,35 @@ class SimFS:
                 pass  # an open descriptor keeps pointing at the inode
         self._end_op(k, "rename", src, {"dst": dst})
 
+    def link(self, src, dst):
+        """Hard link: a second name for the same inode."""
+        src, dst = os.fspath(src), os.fspath(dst)
+        k = self._begin_op("link", src)
+        if src not in self.files:
+            self._end_op(k, "link", src, {"dst": dst, "err": "ENOENT"})
+            raise FileNotFoundError(errno.ENOENT, "No such file or directory", src)
+        if dst in self.files:
+            self._end_op(k, "link", src, {"dst": dst, "err": "EEXIST"})
+            raise FileExistsError(errno.EEXIST, "File exists", dst)
+        self.files[dst] = self.files[src]
+        self._end_op(k, "link", src, {"dst": dst})
+
+    def os_sendfile(self, out_fd, in_fd, offset, count):
+        """os.sendfile between two virtual descriptors: one write system call on the target."""
+        src, dst = self._fds[in_fd], self._fds[out_fd]
+        data = bytes(src._inode.data[offset : offset + count]) if offset is not None else src.read(count)
+        if not data:
+            return 0
+        self._user_write(dst)
+        self._write_syscall(dst, data)
+        return len(data)
+
+    def os_fstat(self, fd):
+        obj = self._fds[fd]
+        if isinstance(obj, tuple):
+            return os.stat_result((stat_mod.S_IFDIR | 0o755, 0, 0, 1, 0, 0, 0, 0, 0, 0))
+        return os.stat_result((stat_mod.S_IFREG | 0o644, id(obj._inode) & 0xFFFFFF, 0, 1, 0, 0, len(obj._inode.data), 0, 0, 0))
+
     def remove(self, path):
         path = os.fspath(path)
         k = self._begin_op("remove", path)
@@ -521,8 +564,26 @@ def _install_patches():
     _REAL["open"] = builtins.open
     _REAL["io_open"] = io.open
     _REAL["open_os"] = os.open
-    for name in ("rename", "replace", "remove", "unlink", "stat", "lstat", "fsync", "makedirs", "mkdir", "fdopen", "close", "write", "fdatasync"):
+    for name in ("rename", "replace", "remove", "unlink", "stat", "lstat", "fsync", "makedirs", "mkdir", "fdopen", "close", "write", "fdatasync", "link", "sendfile", "fstat"):
         _REAL[name] = getattr(os, name)
+
+    def sim_link(src, dst, *a, **k):
+        fs = _ACTIVE[0]
+        if fs is not None and _is_virtual(src):
+            return fs.link(src, dst)
+        return _REAL["link"](src, dst, *a, **k)
+
+    def sim_sendfile(out_fd, in_fd, offset, count, *a, **k):
+        fs = _ACTIVE[0]
+        if fs is not None and fs.is_fd(out_fd) and fs.is_fd(in_fd):
+            return fs.os_sendfile(out_fd, in_fd, offset, count)
+        return _REAL["sendfile"](out_fd, in_fd, offset, count, *a, **k)
+
+    def sim_fstat(fd):
+        fs = _ACTIVE[0]
+        if fs is not None and fs.is_fd(fd):
+            return fs.os_fstat(fd)
+        return _REAL["fstat"](fd)
 
     def sim_open(file, mode="r", *args, **kwargs):
         fs = _ACTIVE[0]
@@ -632,6 +693,9 @@ def _install_patches():
     os.write = sim_write
     os.makedirs = sim_makedirs
     os.mkdir = sim_mkdir
+    os.link = sim_link
+    os.sendfile = sim_sendfile
+    os.fstat = sim_fstat
 
 
 def activate(fs: SimFS):
